@@ -240,6 +240,24 @@ func (v *fnVC) applyCall(c *ssa.CallCommon, x *ssa.Call, pos token.Pos, cond T) 
 			}
 		}
 	}()
+	if con == nil && callee == nil && !c.IsInvoke() {
+		// dynamically called function value (callback, loader, resolver, option): its results are an
+		// uninterpreted function of the function value and the arguments; assumed not to touch modelled state
+		v.notes = append(v.notes, "assume: dynamically called function value "+c.Value.Name()+" does not modify library state (results = dyn(f, args))")
+		var as []T
+		var sorts []string
+		as = append(as, v.val(c.Value))
+		sorts = append(sorts, "Int")
+		for _, a := range c.Args {
+			as = append(as, v.val(a))
+			sorts = append(sorts, v.P.sortOf(a.Type()))
+		}
+		for i := 0; i < nres; i++ {
+			fn := v.dynFn(i, sorts, v.P.sortOf(sig.Results().At(i).Type()))
+			v.assume(implies(v.reach[v.blk], eq(results[i], app(fn, as...))))
+		}
+		return
+	}
 	if con == nil {
 		inMod := callee != nil && callee.Pkg != nil && strings.HasPrefix(callee.Pkg.Pkg.Path(), modPrefix)
 		if c.IsInvoke() || inMod || callee == nil {
@@ -955,4 +973,10 @@ func (v *fnVC) backEdge(from, h *ssa.BasicBlock) {
 	}
 	v.reach[from] = saveReach
 	_ = token.NoPos
+}
+
+func (v *fnVC) dynFn(i int, argSorts []string, resSort string) string {
+	name := fmt.Sprintf("dyn%d_%s__%s", i, sanitize(strings.Join(argSorts[1:], "_")), sanitize(resSort))
+	v.P.add(name, fmt.Sprintf("(declare-fun %s (%s) %s)", name, strings.Join(argSorts, " "), resSort))
+	return name
 }
